@@ -33,10 +33,12 @@ LEVEL_TEXT = ("Coq theorems over the reals about the executable Gallina model of
               "independent of Boehm's identity); [G] the same for surfaces in the u and in the v direction (gather/scatter incl. "
               "flip_ctrlpts_u, sizes su, sv independent); [G] removal_exact_when_test_is_zero: for ANY net (not only one produced by "
               "insertion) whose test distance is 0, re-inserting the removed knot into the result of one removal reproduces the net before "
-              "removal exactly, hence (C04) the curve is unchanged. PARTIAL: r >= 2 insertions/removals (C06_remove_r_insert_r_id_full is "
-              "stated, proved for r = 1 only; r = 2, 3 checked by computation on one instance), volumes, the tolerance-based multiplicity/span "
-              "lookup of operations.remove_knot, rational projection and the object wrappers are tied by the correspondence check and the "
-              "exact oracle only.")
+              "removal exactly, hence (C04) the curve is unchanged. Round 2 (Proofs/KnotRemGeneral*.v), all [G]: for EVERY count r (1 <= r <= p - s) "
+              "inserting r times and removing r times restores the control points exactly; removing j <= r copies leaves the (r-j)-fold insertion "
+              "result; at every pass the Eq. 5.30 test distance is exactly 0 (a previously inserted knot is found removable for any tolerance); the "
+              "evaluated points are unchanged; the same for surfaces (u, v) and volumes (u, v, w). Bounded: removal after refinement only for one "
+              "refined knot. Tied by correspondence/oracle only: several directions removed in one call, the tolerance-based multiplicity/span "
+              "lookup, the object wrappers.")
 LEVEL_NOTE = ("The model describes helpers.knot_removal after fixes/C06-knot-removal.diff (alignment with Algorithm A5.8). It is tied to /repo by the "
               "sampled correspondence check (tolerance 1e-9). Shape preservation in the theorems is stated on control nets (insertion of the "
               "removed knot gives back the net); its equivalence with equality of evaluated points is C04's insertion theorem.")
